@@ -73,6 +73,7 @@ type interpreter struct {
 	collisionFree bool
 	czCount     int
 	divCount    int
+	freeIdx     int
 	gzipCount   int
 	skipExt     *ssa.Function
 	curFr       *frame
@@ -507,6 +508,11 @@ func runFrame(fr *frame) {
 		}
 		fr.panicking = true
 		fr.panic = recover()
+		if cs, ok := fr.panic.(crashSignal); ok {
+			// the modelled process died: no deferred function runs, unwind to verifrt.Crash
+			fr.block = nil
+			panic(cs)
+		}
 		if pa, ok := fr.panic.(pathAbort); ok {
 			fr.block = nil
 			if (pa.kind == "unsupported" || pa.kind == "limit") && !strings.Contains(pa.msg, "\n") {
